@@ -15,7 +15,7 @@ def Plain (c : Cmd) : Prop := upperName c.name ∉ specialRouted ∧ c.args ≠ 
 def Covered (cv : ClusterView) : Prop := ∀ s, s < 16384 → ∃ n, cv.owner s = some n
 
 theorem clusterHash_lt (k : Bytes) : clusterHash k < 16384 := by
-  rw [Props.C11.clusterHash_eq_spec]; exact Props.C11.hashSlotSpec_lt k
+  rw [Props.C11.clusterHash_eq_spec]; exact hashSlotSpec_lt k
 
 theorem clusterResolve_eq (cv : ClusterView) (c : Cmd) :
     clusterResolve cv c.name c.args =
